@@ -1,6 +1,5 @@
-; requires: kv strings
+; requires: kv strings sepfree
 ; raw store layout of x/storage (concrete string mode only): full key = table prefix ++ key built by types.<X>Key
-(define-fun slashfree ((s Str)) Bool (not (str.contains s "/")))
 ; hex rendering (%x of a byte string): separator-free and injective (A-STRINGS)
 (assert (forall ((a Str)) (! (slashfree (hexenc a)) :pattern ((hexenc a)))))
 (assert (forall ((a Str) (b Str)) (! (=> (= (hexenc a) (hexenc b)) (= a b)) :pattern ((hexenc a) (hexenc b)))))
